@@ -1,3 +1,4 @@
 import MpfVerif.DriverLoop
-/-! Driver of the C09 model (stub until the model exists): answers bad-op to everything. -/
-def main : IO UInt32 := MpfVerif.runDriver (fun (s : Unit) _ => (s, "bad-op")) ()
+import MpfVerif.Model.Light
+/-! Driver of the C09 model (light stack + software fade channels). -/
+def main : IO UInt32 := MpfVerif.runDriver MpfVerif.Light.driverStep MpfVerif.Light.init
